@@ -113,6 +113,8 @@ def gen_atom(rng, opts):
             return ("test", "measurement", (), "eq_arg", (rng.choice(MEAS),))
         if c == 5:
             return ("test", "time", (), "even_us", ())
+        if rng.random() < 0.5:
+            return ("test", "fields", (rng.choice(FIELD_KEYS),), "between_args", (rng.choice([-1, 0]), rng.choice([1, 2.5])))
         return ("test", "fields", (rng.choice(FIELD_KEYS),), "in_args", (0, 2.5))
     if k == "map":
         c = rng.randrange(8)
